@@ -2,23 +2,23 @@
 # usage: tools/verify_seed.sh <Cxx> [name]   -- confirm a sub-agent's seeded change in its scratch worktree /tmp/wt/<Cxx>, then file it under seeded/
 # Confirms: patch.diff == working-tree source diff; lib+bin unit tests pass with the change (47); demo fails with the change and passes without it.
 set -u
-ID="$1"; NAME="${2:-$1}"; WT=/tmp/wt/$ID
+ID="$1"; NAME="${2:-$1}"; WT=${WT_ROOT:-/tmp/wt}/$ID
 DIR="$(cd "$(dirname "$0")/.." && pwd)"
 cd "$WT" || exit 2
 DEMO=$(python3 -c "import json;print(json.load(open('meta.json')).get('demo_cmd',''))")
 echo "demo_cmd: $DEMO"
 # 1. patch matches tree
-git diff -- src Cargo.toml example.cfg > /tmp/wt/$ID.actual.diff
+git diff -- src Cargo.toml example.cfg > ${WT_ROOT:-/tmp/wt}/$ID.actual.diff
 if ! git apply --check -R patch.diff 2>/dev/null; then echo "FAIL: patch.diff does not reverse-apply to the working tree"; exit 1; fi
 # 2. unit tests with the change
 T=$(cargo test --offline --lib --bins 2>&1 | grep -E "^test result" | head -1); echo "unit tests with change: $T"
 echo "$T" | grep -q "47 passed; 0 failed" || { echo "FAIL: unit tests"; exit 1; }
 # 3. demo with the change must fail
-( eval "$DEMO" ) > /tmp/wt/$ID.demo_with.log 2>&1; RC1=$?
+( eval "$DEMO" ) > ${WT_ROOT:-/tmp/wt}/$ID.demo_with.log 2>&1; RC1=$?
 echo "demo with change: exit $RC1"
 # 4. demo without the change must pass
 git apply -R patch.diff || exit 1
-( eval "$DEMO" ) > /tmp/wt/$ID.demo_without.log 2>&1; RC2=$?
+( eval "$DEMO" ) > ${WT_ROOT:-/tmp/wt}/$ID.demo_without.log 2>&1; RC2=$?
 echo "demo without change: exit $RC2"
 T2=$(cargo test --offline --lib --bins 2>&1 | grep -E "^test result" | head -1); echo "unit tests without change: $T2"
 git apply patch.diff || exit 1
